@@ -13,6 +13,25 @@ func RedactSQLQuery(sql string) (string, error) {
 	}
 
 	Normalize(stmt, bv, ValueMask)
+	maskRemainingLiterals(stmt)
 
 	return comments.Leading + String(stmt) + comments.Trailing, nil
+}
+
+// maskRemainingLiterals replaces the literals that Normalize keeps with placeholders. Normalize turns values into bind
+// variables for the sake of query plans and leaves alone what cannot become a typed bind variable: hex and bit
+// literals, PostgreSQL escape strings, numbers that do not fit 64 bits (or have leading zeros like 0812).
+// They are values of the statement all the same and must not be displayed.
+func maskRemainingLiterals(stmt Statement) {
+	nz := newNormalizer(stmt, map[string]*querypb.BindVariable{}, ValueMask)
+	_ = Walk(func(node SQLNode) (kontinue bool, err error) {
+		if val, ok := node.(*SQLVal); ok {
+			switch val.Type {
+			case StrVal, IntVal, FloatVal, HexNum, HexVal, BitVal, PgEscapeString:
+				val.Type = ValArg
+				val.Val = append([]byte(":"), nz.newName()...)
+			}
+		}
+		return true, nil
+	}, stmt)
 }
